@@ -201,6 +201,13 @@ func New(name string, k int, seed int64) *Palette {
 	default:
 		panic("unknown palette " + name)
 	}
+	// the specifications use three values (0 = empty): which of the palette's non-empty byte strings
+	// stand for values 1 and 2 is drawn per palette instance, so that every boundary length gets its turn
+	// (the older palettes keep their fixed order: committed witnesses name a palette and a seed)
+	if len(p.vals) > 3 && (name == "mid" || name == "huge") {
+		rest := p.vals[1:]
+		rng.Shuffle(len(rest), func(i, j int) { rest[i], rest[j] = rest[j], rest[i] })
+	}
 	return check(p)
 }
 
